@@ -27,6 +27,15 @@ ASSUMPTIONS = [
 VALUE = 'cell::Cell::value'
 TAG_AWARE_OK = 'has an explicit WithTag arm (tag-aware)'
 
+# functions that look AT the wrapper (explicit WithTag arm): each is classified; an unlisted one needs review
+TAG_AWARE = {
+    'cell::Cell::value': 'strips the wrapper',
+    'cell::Cell::tags': 'reveals tags - callers restricted by R4',
+    'cell::Cell::type_name': 'reveals "tag" for a tagged cell - callers restricted by R4',
+    '<cell::Cell as core::clone::Clone>::clone': 'preserves the cell as is',
+    '<cell::Cell as core::fmt::Debug>::fmt': 'printing (honours the formatting tag)',
+}
+
 RAW_EXCEPTIONS = {
     'state::State::load_value_opcode': 'non-default arms (Int/Str/Nil) are value-preserving re-encodings; a tagged cell takes the default LoadCell path with tags intact',
     'state::filename_literal': 'scrutinee is a Tok::Literal fresh from the lexer, which never carries tags',
@@ -43,7 +52,7 @@ PRODUCER_CALLERS = {
     'bitstr_ext::open_bitstr': 'stash element tagged with the suspended offset (internal variable)',
     'state::build_let_vec': 'assert-message tag on the compiled length literal of a let pattern',
 }
-READERS = {'cell::Cell::tags', 'cell::Cell::get_tag', 'state::State::parse_fmt_flags'}
+READERS = {'cell::Cell::tags', 'cell::Cell::get_tag', 'state::State::parse_fmt_flags', 'cell::Cell::type_name'}
 READER_CALLERS = {
     'cell::Cell::insert_tag': 'tag primitive', 'cell::Cell::remove_tag': 'tag primitive', 'cell::Cell::get_tag': 'tag primitive',
     'state::core_word_tags': 'tag word tags', 'state::core_word_get_tag': 'tag word get-tag',
@@ -52,8 +61,20 @@ READER_CALLERS = {
     'state::update_fmt_tags': 'fmt word', 'state::update_fmt_upcase': 'fmt word',
     'error::assert_get_msg': 'assert-message lookup when formatting AssertEqFailed',
     'bitstr_ext::word_close_bitstr': 'reads the offset tag of its own stash element',
+    '<error::Xerr as core::fmt::Display>::fmt': 'error formatting prints the type name of the offending value (printing path)',
     'state::core_word_str_to_num': 'reviewed exception: str>number reads the #fmt tag as its input radix (inverse of printing; pinned by test_str_to_num)',
 }
+
+
+def _whole_pop(e, depth=0):
+    """does e denote (a clone of) a whole cell obtained from pop_data/top_data?"""
+    from ..core import unwrap_value
+    e = unwrap_value(e)
+    if isinstance(e, tuple) and e[0] == 'call' and e[1] in ('state::State::pop_data', 'state::State::top_data'):
+        return True
+    if isinstance(e, tuple) and e[0] == 'phi' and depth < 4:
+        return any(_whole_pop(x, depth + 1) for x in e[1])
+    return False
 
 
 def registry_reach(fx):
@@ -147,7 +168,10 @@ def run(rep, facts, tier):
             if kind == 'value':
                 rep.add('C13.R1', key, True, 'scrutinee is the result of Cell::value()', fn, f.at(bb))
             elif kind == 'aware':
-                rep.add('C13.R1', key, True, TAG_AWARE_OK, fn, f.at(bb), nontrivial=False)
+                ok_aw = fn in TAG_AWARE
+                rep.add('C13.R1', key, ok_aw, TAG_AWARE_OK + ': ' + TAG_AWARE[fn] if ok_aw else
+                        '%s tests for the WithTag wrapper explicitly: its result can differ between a tagged and an untagged argument '
+                        '(not one of the reviewed tag-aware functions)' % short(fn), fn, f.at(bb), nontrivial=False)
             elif fn in RAW_EXCEPTIONS:
                 rep.add('C13.R1', key, True, 'reviewed exception: ' + RAW_EXCEPTIONS[fn], fn, f.at(bb))
             else:
@@ -223,6 +247,27 @@ def run(rep, facts, tier):
                         '%s reads the tags of its argument (calls %s): its behaviour can depend on tags' % (fn, short(c)),
                         fn, t.get('at'), nontrivial=inreach)
     rep.floor('C13.R3 tag producer call sites', n_p, 11)
+    # R3 (pass-through): no word hands a whole popped cell back as its "result": a computed result is built
+    # from the untagged value, so it cannot inherit the argument's tags
+    from ..core import unwrap_value
+    assert _whole_pop(('call', 'core::clone::Clone::clone', (('ref', False, ('call', 'state::State::pop_data', (), 3)),), 4)), 'self-test'
+    assert not _whole_pop(('call', 'cell::Cell::to_xint', (('call', 'state::State::pop_data', (), 3),), 4)), 'self-test'
+    n_push = 0
+    for fn in sorted(reach):
+        f = fx.fns.get(fn)
+        if f is None:
+            continue
+        for bb, t in f.calls():
+            if callee_of(t) == 'state::State::push_data':
+                n_push += 1
+                e = f.expr_of_operand(t['args'][1])
+                if _whole_pop(e):
+                    rep.add('C13.R3', 'C13.R3:pass-through:%s' % fn, False,
+                            '%s pushes back a whole cell it popped (%s): the "result" keeps the tags of that argument' % (short(fn), expr_str(e)[:70]),
+                            fn, t.get('at'))
+    rep.add('C13.R3', 'C13.R3:pass-through:none', True, 'none of the %d push_data sites in words hands back a whole popped cell' % n_push,
+            None, None)
+    rep.floor('C13.R3 push_data sites in words', n_push, 110)
     # direct reads of the private field WithTag.tags outside cell.rs accessors
     for fn in sorted(fx.fns):
         f = fx.fns[fn]
